@@ -1,7 +1,7 @@
 // C ABI around one build of the library (compiled twice: once against /repo as "cur",
 // once against /verif/reference with -Dnifly=nifly_ref -Dvf=vf_ref as "ref"), so that both
 // builds live in one process and the harness talks to neither set of C++ headers.
-#include "synth.hpp"
+#include "cases.hpp"
 
 #ifndef ADAPTER
 #error "define ADAPTER=cur or ADAPTER=ref"
@@ -51,6 +51,21 @@ int FN(synth)(const char* type, unsigned vi, const unsigned char* tape, size_t t
 	}
 	*trace = dup(tr, traceLen);
 	return 1;
+}
+
+// Force the k-th integer-like read of the next synthesised subject to v (k < 0: off)
+void FN(set_force)(int k, unsigned long long v) {
+	vf::force().read = k;
+	vf::force().value = v;
+}
+
+// One-factor sweep over this build's reading code (cases.hpp); emits tapes [0xF0, type, version, k, v, body]
+void FN(sweep)(int shard, int nshards, unsigned maxK, unsigned maxV, unsigned nPatterns, void (*emit)(void*, const unsigned char*, size_t), void* ctx,
+			   unsigned long long* tried, unsigned long long* novel) {
+	uint64_t t = 0, n = 0;
+	vf::sweepCells(shard, nshards, maxK, maxV, nPatterns, [&](const std::vector<uint8_t>& tape) { emit(ctx, tape.data(), tape.size()); }, t, n);
+	*tried = t;
+	*novel = n;
 }
 
 // Load then raw-save. Returns the load code (0 = accepted), -1 if save failed.
